@@ -6,6 +6,7 @@ package gen
 import (
 	"fmt"
 	"math/rand"
+	"regexp"
 	"sort"
 	"strings"
 )
@@ -414,7 +415,92 @@ func Mergeable(rng *rand.Rand, opt Options) []*Service {
 			m.Fields = append(m.Fields, f)
 		}
 	}
+	if rng.Intn(3) == 0 {
+		Dunder(rand.New(rand.NewSource(rng.Int63())), ss)
+	}
 	return ss
+}
+
+var identRe = regexp.MustCompile(`[A-Za-z_][A-Za-z0-9_]*`)
+var digitRe = regexp.MustCompile(`[0-9]`)
+
+// Dunder renames, consistently over the whole set, some fields and types to legal names with a double
+// underscore inside (n0__f1, V__1): only a leading "__" is reserved for introspection.
+func Dunder(rng *rand.Rand, ss []*Service) {
+	keep := map[string]bool{"Query": true, "Mutation": true, "Subscription": true, "Node": true, "id": true, "node": true,
+		"String": true, "Int": true, "Boolean": true, "ID": true, "Float": true}
+	ren := map[string]string{}
+	decide := func(name string, one int) {
+		if keep[name] || strings.HasPrefix(name, "__") {
+			return
+		}
+		if _, seen := ren[name]; seen {
+			return
+		}
+		ren[name] = name
+		if rng.Intn(one) != 0 {
+			return
+		}
+		if i := strings.Index(name, "_"); i > 0 {
+			ren[name] = name[:i] + "_" + name[i:]
+		} else if loc := digitRe.FindStringIndex(name); loc != nil && loc[0] > 0 {
+			ren[name] = name[:loc[0]] + "__" + name[loc[0]:]
+		} else {
+			ren[name] = name + "__x"
+		}
+	}
+	var types, fields []string
+	for _, s := range ss {
+		for _, d := range s.Defs {
+			types = append(types, d.Name)
+			if d.Kind == "ENUM" {
+				continue
+			}
+			for _, f := range d.Fields {
+				fields = append(fields, f.Name)
+			}
+		}
+	}
+	for _, t := range types {
+		decide(t, 4)
+	}
+	tren := ren
+	ren = map[string]string{}
+	for _, f := range fields {
+		decide(f, 3)
+	}
+	renameSet(ss, tren, ren)
+}
+
+func renameSet(ss []*Service, tren, fren map[string]string) {
+	ty := func(t string) string {
+		return identRe.ReplaceAllStringFunc(t, func(n string) string {
+			if r, ok := tren[n]; ok {
+				return r
+			}
+			return n
+		})
+	}
+	for _, s := range ss {
+		for _, d := range s.Defs {
+			d.Name = ty(d.Name)
+			for i := range d.Ifaces {
+				d.Ifaces[i] = ty(d.Ifaces[i])
+			}
+			for i := range d.UTypes {
+				d.UTypes[i] = ty(d.UTypes[i])
+			}
+			for i := range d.Fields {
+				if r, ok := fren[d.Fields[i].Name]; ok {
+					d.Fields[i].Name = r
+				}
+				d.Fields[i].Type = ty(d.Fields[i].Type)
+				for j := range d.Fields[i].Args {
+					d.Fields[i].Args[j].Type = ty(d.Fields[i].Args[j].Type)
+				}
+			}
+		}
+	}
 }
 
 // ConflictKinds lists the conflict-introducing edits of C05.
@@ -500,6 +586,11 @@ func Conflict(rng *rand.Rand, base []*Service, kind string) (out []*Service, ok 
 		b.ensure("UNION", "UU").UTypes = []string{"M1", "M3"}
 	default:
 		return nil, false
+	}
+	if rng.Intn(3) == 0 {
+		// the same conflict between names that carry a double underscore inside
+		renameSet(ss, map[string]string{"Clash": "Cl__ash", "Mis": "Mi__s", "Ov": "O__v", "Part": "Pa__rt", "Sig": "Si__g", "UU": "U__U", "M3": "M__3"},
+			map[string]string{"shared": "sha__red", "x": "x__1", "p": "p__0", "r": "r__0"})
 	}
 	return ss, true
 }
